@@ -491,11 +491,14 @@ func (sd *simSender) Send(ctx context.Context, foreignID string, statusType int,
 	d := s.enter(p, "SD", 0)
 	s.emit(p, fmt.Sprintf("SD:%s=%s", s.hdrTok(foreignID, statusType, headers), dispRes(d)))
 	if d == dOk || d == dErrAfter || d == dStale {
-		h := map[workflow.Header]string{}
-		for k, v := range headers {
-			h[k] = v
-		}
+		// like the bundled memstreamer, the log keeps the headers map it was handed (no copy): a relay that re-uses one map for
+		// several entries corrupts what it published earlier
+		h := headers
 		if h[workflow.HeaderTopic] != sd.topic {
+			h = map[workflow.Header]string{}
+			for k, v := range headers {
+				h[k] = v
+			}
 			h[workflow.HeaderTopic] = sd.topic // the sender's topic is authoritative
 		}
 		s.log = append(s.log, &workflow.Event{ID: int64(len(s.log)) + 1, ForeignID: foreignID, Type: statusType, Headers: h, CreatedAt: simBase.Add(time.Duration(s.now))})
